@@ -57,7 +57,9 @@ class Ctx:
         (default: every case whose implementation output is not an error)."""
         if not lines:
             return []
-        impl_out = [impl_step(l) for l in lines]
+        t_impl = time.time()
+        impl_out = common.pmap(impl_step, lines)
+        self.dist['time_impl_s'] = round(self.dist.get('time_impl_s', 0) + time.time() - t_impl, 2)
         self.evaluations += len(lines)
         self.corr_commands[label] = self.corr_commands.get(label, 0) + len(lines)
         for l, o in zip(lines, impl_out):
@@ -68,7 +70,9 @@ class Ctx:
         if not self.model_available:
             self.notes.append('model driver unavailable: correspondence for %s skipped' % label)
             return impl_out
+        t_model = time.time()
         model_out = common.run_model(lines)
+        self.dist['time_model_s'] = round(self.dist.get('time_model_s', 0) + time.time() - t_model, 2)
         for l, a, b in zip(lines, model_out, impl_out):
             if a != b:
                 if 'OUTSIDE-MODEL' in a and os.environ.get('VERIF_ALLOW_OUTSIDE'):
